@@ -223,6 +223,15 @@ pub fn gen(rng: &mut Rng, size: usize) -> Value {
         _ => {}
     }
     if body.first() == Some(&b'{') && hdr_len == 0 && false { valid = false; }
+    // trailing bytes after the document (blanks keep it valid, anything else does not), with a read that ends exactly at
+    // the document's last byte, one before, or one after: what follows the closing brace arrives in a LATER read
+    let mut trailer_at: Option<usize> = None;
+    if rng.chance(1, 5) && !body.is_empty() {
+        let t: &[u8] = *rng.pick(&[&b"{}"[..], &b" x"[..], &b"\n]"[..], &b"  "[..], &b"\n"[..], &b"\r\n\t "[..], &b"\n{\"version\":3}"[..], &b"0"[..], &b","[..]]);
+        trailer_at = Some(hdr_len + body.len());
+        if !t.iter().all(|b| b" \t\r\n".contains(b)) { valid = false; }
+        body.extend(t);
+    }
     bytes.extend(body);
     // chunk schedule: 1-byte reads, boundaries near the header end, random sizes
     let mut sizes: Vec<usize> = vec![];
@@ -234,6 +243,12 @@ pub fn gen(rng: &mut Rng, size: usize) -> Value {
         _ => {}
     }
     for _ in 0..rng.below(12) { sizes.push(1 + rng.below(30) as usize); }
+    if let Some(end) = trailer_at {
+        if !long_header && rng.chance(3, 4) {
+            let cut = (end as i64 + rng.range(-1, 1)).max(1) as usize;
+            sizes = match rng.below(3) { 0 => vec![cut], 1 if cut > 3 => vec![3, cut - 3], _ => { let a = 1 + rng.below(cut as u64) as usize; if a < cut { vec![a, cut - a] } else { vec![cut] } } };
+        }
+    }
     if long_header {
         // full reads, or a short first read and then full ones, or a read that ends exactly at / before / after the '\r'
         sizes = match rng.below(4) { 0 => vec![], 1 => vec![100], 2 => vec![hdr_len - 2], _ => vec![hdr_len - 1] };
